@@ -193,7 +193,13 @@ func validateSiacoins(ms *MidState, txn types.Transaction, ts V1TransactionSuppl
 		} else if parent.MaturityHeight > ms.base.childHeight() {
 			return fmt.Errorf("siacoin input %v has immature parent", i)
 		}
-		inputSum = inputSum.Add(parent.SiacoinOutput.Value)
+		// NOTE: a parent listed twice is only detected later, by
+		// validateSignatures, so the sum is not bounded by the supply
+		var overflow bool
+		inputSum, overflow = inputSum.AddWithOverflow(parent.SiacoinOutput.Value)
+		if overflow {
+			return errors.New("siacoin inputs overflow")
+		}
 	}
 	var outputSum types.Currency
 	for _, out := range txn.SiacoinOutputs {
@@ -693,8 +699,14 @@ func validateV2Siacoins(ms *MidState, txn types.V2Transaction) error {
 		if r, ok := fcr.Resolution.(*types.V2FileContractRenewal); ok {
 			// a renewal creates a new contract, optionally "rolling over" funds
 			// from the old contract
-			inputSum = inputSum.Add(r.RenterRollover)
-			inputSum = inputSum.Add(r.HostRollover)
+			// NOTE: the rollovers are bounded by validateV2CurrencyOverflow,
+			// but their sum with the inputs is not
+			var overflow bool
+			if inputSum, overflow = inputSum.AddWithOverflow(r.RenterRollover); overflow {
+				return errors.New("siacoin inputs overflow")
+			} else if inputSum, overflow = inputSum.AddWithOverflow(r.HostRollover); overflow {
+				return errors.New("siacoin inputs overflow")
+			}
 
 			rev := r.NewContract
 			outputSum = outputSum.Add(rev.RenterOutput.Value).Add(rev.HostOutput.Value).Add(ms.base.V2FileContractTax(rev))
